@@ -50,6 +50,9 @@ func (t c09table) sig() string {
 func c09gen(rng *core.Rng, arrays bool) c09table {
 	t := c09table{}
 	n := 1 + rng.Intn(8)
+	if rng.Intn(40) == 0 {
+		n = core.Pick(rng, []int{64, 255, 256, 1000, 1600}) // very wide rows
+	}
 	pool := scalarOIDs
 	if arrays {
 		pool = append(append([]uint32{}, scalarOIDs...), arrayOIDs...)
@@ -58,7 +61,11 @@ func c09gen(rng *core.Rng, arrays bool) c09table {
 		t.OIDs = append(t.OIDs, core.Pick(rng, pool))
 	}
 	nullPct := core.Pick(rng, []int{0, 10, 30, 60, 100})
-	for r := 1 + rng.Intn(6); r > 0; r-- {
+	nrows := 1 + rng.Intn(6)
+	if rng.Intn(25) == 0 {
+		nrows = 0 // a result without rows
+	}
+	for r := nrows; r > 0; r-- {
 		row := make([]any, n)
 		forms := make([]string, n)
 		for i, o := range t.OIDs {
